@@ -7,6 +7,13 @@ complete state graph of every plan and emits, per plan and observable schedule, 
 phase of EVERY job.  Binding: each chosen plan runs on the real engine and the attempts of all jobs (injector
 counters + rows of the `execution` table) are compared with the model - including the jobs that must NOT run
 again (other scatter elements, jobs on the other location, descendants).
+
+Second family (fork/join DAGs, partial data loss): chains with skip edges (`dag4`..`dag6`, one topological order, so
+the real engine is sequential by itself), two fail-stop failures in sequence, each losing the outputs of a chosen set
+of provenance ancestors of the failing job (`fail_sel`: per-job directories and all their copies, not a whole
+location).  These are the histories in which a recovery meets an old LOST instance of a job and a newer AVAILABLE one
+on the same port (GraphMapper._update_token: the available one wins, the job must not run again); the model
+classifies every plan (`superseded`: late / early = the order in which the breadth-first walk meets the two).
 """
 from __future__ import annotations
 
@@ -18,7 +25,7 @@ LEVEL = "model_checking"
 
 
 def check_case(ctx, case):
-    det = {k: case.get(k) for k in ("shape", "plan", "limit", "dummy", "serial", "seed")}
+    det = {k: case.get(k) for k in ("shape", "plan", "limit", "dummy", "serial", "seed", "model_kw") if k in case}
     sig = case["sig"]
     if case["hang"]:
         ctx.count("runs_hung")
@@ -35,6 +42,11 @@ def check_case(ctx, case):
             ctx.violation("c18:schedule-not-in-model:%s" % sig, dict(det, why=case["why"]), case["why"])
         return False
     det["model"] = {k: rec[k] for k in ("outcome", "attempts", "version", "hist", "rolled", "failed")}
+    if case["shape"].startswith("dag") and o["outcome"] == "raised" and rec["outcome"] == "done":
+        # (C16 does not run this family: a recovery that gives up is reported here; no count can be compared)
+        ctx.violation("c18:raised:%s" % sig, dict(det, error=case.get("error")),
+                      "the run raised (%s); the model completes this plan with attempts %s" % (case.get("error"), rec["attempts"]))
+        return False
     d = [x for x in rm.diff(rec, o) if x[0] != "outcome"]
     if not d:
         return True
@@ -81,15 +93,63 @@ def run(ctx):
             ctx.sample({"shape": shape, "plan": plan, "model_attempts": rec and rec["attempts"],
                         "real_attempts": None if case["hang"] else case["o"]["attempts"], "schedule": None if case["hang"] else case["o"]["hist"]})
     ctx.require(n_must_not >= 20, "vacuous: only %d plans contain a job that must not run again" % n_must_not)
+    run_dags(ctx, len(cases))
     ctx.exhaustive = False
     ctx.assumptions += ["see C16; availability is that of files on the volatile directories; the model's data instances are (job, generation)",
                         "two-location pipelines (pipeNx) give frontiers that stop at data surviving on the other location"]
+
+
+def run_dags(ctx, base):
+    """Fork/join DAGs, two failures in sequence with partial data loss (see the module docstring)."""
+    specs = rm.dag_specs(ctx)
+    preds = rm.model_runs(ctx, [(s, kw) for s, kw, _ in specs])
+    cases = rm.dag_cases(ctx, preds, specs)
+    kws = {s: kw for s, kw, _ in specs}
+    n = {}
+    for i, (shape, k, cls) in enumerate(cases):
+        recs = preds[shape][k]
+        # free running: the shapes have one topological order; seeded completion delays as everywhere else
+        case = rm.run_case(ctx, shape, recs, serial=False, seed=ctx.seed * 100003 + base + i)
+        case["model_kw"] = {kk: (list(v) if isinstance(v, tuple) else v) for kk, v in kws[shape].items()}
+        plan = recs[0]["plan"] or {}
+        ctx.case((shape, k), nontrivial=bool(plan))
+        ctx.impl_trace(1)
+        ok = check_case(ctx, case)
+        n[cls] = n.get(cls, 0) + 1
+        ctx.count("real:%s" % shape)
+        ctx.count("real:dag:%s" % cls)
+        if ok:
+            ctx.count("real:dag:%s:agree" % cls)
+        if case["hang"] and ctx.counters.get("runs_hung", 0) >= 8:
+            ctx.count("aborted_after_8_hangs(remaining plans not run)")
+            break
+        rec = case.get("rec")
+        if rec and cls == "late":
+            ctx.count("jobs_not_rolled_back_because_a_newer_instance_is_available", len({x for r in recs for x, _ in r["superseded"]}))
+            if n[cls] == 1:
+                ctx.sample({"shape": shape, "plan": plan, "superseded": recs[0]["superseded"], "model_attempts": rec["attempts"],
+                            "real_attempts": None if case["hang"] else case["o"]["attempts"]})
+    ctx.require(n.get("late", 0) >= 2, "vacuous: only %d plans in which a lost instance is superseded by an available one (late order)" % n.get("late", 0))
+    ctx.require(n.get("rest", 0) >= 10, "vacuous: only %d ordinary fork/join plans" % n.get("rest", 0))
+    ctx.assumptions += ["fork/join family: failures are injected in the execute phase only; a fail-stop with partial loss removes every "
+                        "output file the chosen jobs produced so far and every copy the data manager relates to it; plans in which two "
+                        "transfer steps of one job fail at once are not run (concurrent recoveries: C19)"]
 
 
 def replay(ctx, data):
     d = data["detail"]
     shape, plan = d["shape"], d.get("plan") or {}
     mt = max([int(v[0]) for v in plan.values()] or [1])
+    if shape.startswith("dag"):
+        kw = dict(d["model_kw"])
+        preds = rm.model_runs(ctx, [(shape, kw)])
+        k = rm.plan_key(plan) + "@%s" % d["limit"]
+        ctx.require(k in preds[shape], "replay: plan not generated by the model: %s" % k)
+        case = rm.run_case(ctx, shape, preds[shape][k], serial=False, seed=d.get("seed", 0))
+        case["model_kw"] = kw
+        check_case(ctx, case)
+        print(json.dumps({"replayed": k, "hang": case["hang"], "observed": case.get("o")})[:800])
+        return
     preds = rm.model_runs(ctx, [(shape, dict(limit=d["limit"], maxpairs=max(1, len(plan)), maxtimes=mt))])
     k = rm.plan_key(plan) + "@%s" % d["limit"]
     ctx.require(k in preds[shape], "replay: plan not generated by the model: %s" % k)
